@@ -1,8 +1,167 @@
 package main
 
-import "fmt"
+import (
+	"encoding/json"
+	"fmt"
+	"os"
 
+	"verif/harness/core"
+	"verif/simdisk"
+)
+
+// replayMain re-executes the single case stored in a replay artefact through
+// the plain session functions (no exploration) and prints what it observes.
+// Exit 1 = the violation shows again, 0 = it does not, 2 = cannot replay.
 func replayMain(path string) int {
-	fmt.Println("replay not implemented yet:", path)
+	b, err := os.ReadFile(path)
+	if err != nil {
+		fmt.Fprintln(os.Stderr, err)
+		return 2
+	}
+	var f core.Finding
+	if err := json.Unmarshal(b, &f); err != nil {
+		fmt.Fprintln(os.Stderr, "bad artefact:", err)
+		return 2
+	}
+	fmt.Printf("replaying %s finding of engine %q: %s\n", f.Prop, f.Engine, firstLine(f.Msg))
+	show := func(vs []core.Violation) int {
+		n := 0
+		for _, v := range vs {
+			fmt.Printf("  [%s] %s\n", v.Prop, v.Msg)
+			n++
+		}
+		if n > 0 {
+			fmt.Println("REPRODUCED")
+			return 1
+		}
+		fmt.Println("NOT REPRODUCED (no oracle clause failed on this tree)")
+		return 0
+	}
+	switch f.Engine {
+	case "seq", "format":
+		sys := core.Mount(simdisk.NewState(), f.Cfg)
+		defer sys.Unmount()
+		so := core.SessionOpts{Sys: sys, ObserveEach: true, CmpProp: f.Prop, CloseAtEnd: true}
+		if f.Engine == "format" {
+			fo := newFormatOracle()
+			so.AfterStep = fo.afterStep
+		}
+		if f.Prop == "C20" {
+			mm := core.NewMetricsModel()
+			sys.MC, sys.Cnt, so.AfterStep = mm.Collector, &mm.Exp, mm.AfterStep
+		}
+		fmt.Printf("  config %+v ops %s\n", f.Cfg, core.OpsString(f.Ops))
+		sr := core.RunSession(nil, f.Cfg, f.Ops, so)
+		vs := sr.Viol
+		so.Lazy = true
+		sys2 := core.Mount(simdisk.NewState(), f.Cfg)
+		so.Sys = sys2
+		so.AfterStep = nil
+		vs = append(vs, core.RunSession(nil, f.Cfg, f.Ops, so).Viol...)
+		sys2.Unmount()
+		return show(vs)
+	case "crash":
+		return replayCrash(&f, show)
+	case "sched":
+		raw, _ := json.Marshal(f.Extra["scenario"])
+		var sc core.Scenario
+		if err := json.Unmarshal(raw, &sc); err != nil {
+			fmt.Fprintln(os.Stderr, "bad scenario:", err)
+			return 2
+		}
+		var sched []int
+		raw, _ = json.Marshal(f.Extra["schedule"])
+		json.Unmarshal(raw, &sched)
+		fmt.Printf("  scenario %q schedule %v\n", sc.Name, sched)
+		res, rec := core.RunScenario(&sc, core.NewPrefixChooser(sched), false)
+		fmt.Println("  history:", core.HistoryString(rec))
+		return show(core.CheckExecution(&sc, res, rec))
+	case "fault":
+		raw, _ := json.Marshal(f.Extra["fault"])
+		var fp core.FaultPlan
+		json.Unmarshal(raw, &fp)
+		fmt.Printf("  config %+v ops %s %s\n", f.Cfg, core.OpsString(f.Ops), fp.String())
+		var p *core.FaultPlan
+		if fp.At >= 0 {
+			p = &fp
+		}
+		r := core.RunFault(f.Cfg, f.Ops, faultCont, p)
+		fmt.Println("  failing step:", r.HitOp, "outcome:", r.Outcome)
+		return show(r.Viol)
+	case "cluster":
+		raw, _ := json.Marshal(f.Extra["events"])
+		var evs []core.VEvent
+		json.Unmarshal(raw, &evs)
+		nodes := 2
+		if n, ok := f.Extra["nodes"].(float64); ok {
+			nodes = int(n)
+		}
+		var mut *core.Mutation
+		if m, ok := f.Extra["mutation"]; ok {
+			raw, _ := json.Marshal(m)
+			mut = &core.Mutation{}
+			json.Unmarshal(raw, mut)
+		}
+		fmt.Printf("  %d nodes, events %s mutation %v\n", nodes, core.VEventsString(evs), mut)
+		r := replayCluster(nodes, evs, nil, mut, true)
+		if r.panicMsg != "" {
+			fmt.Println("  panic/deadlock:", r.panicMsg)
+			fmt.Println("REPRODUCED")
+			return 1
+		}
+		return show(r.viol)
+	case "twin":
+		if ops, ok := f.Extra["ops"]; ok {
+			raw, _ := json.Marshal(ops)
+			var tops []core.TOp
+			json.Unmarshal(raw, &tops)
+			fmt.Printf("  twin sequence %s\n", twinString(tops))
+			return show(core.RunTwin(tops, core.Config{SegSize: 200}).Viol)
+		}
+		if sch, ok := f.Extra["schedule"]; ok {
+			raw, _ := json.Marshal(sch)
+			var sched []int
+			json.Unmarshal(raw, &sched)
+			open, _ := f.Extra["gate_opens"].(bool)
+			n := 3
+			if c, ok := f.Extra["checkpoints"].(float64); ok {
+				n = int(c)
+			}
+			_, br := core.RunBlockedReport(core.NewPrefixChooser(sched), n, open)
+			fmt.Println("  outcome:", br.History)
+			return show(br.Viol)
+		}
+	}
+	fmt.Printf("engine %q enumerates its cases from fixed menus; the case is described in the artefact (%v) and re-running `vcheck %s` re-executes it\n", f.Engine, f.Extra, f.Prop)
 	return 2
+}
+
+// replayCrash follows the recorded path: per level record the workload, take
+// the recorded crash position and image, and finally recover the last image.
+func replayCrash(f *core.Finding, show func([]core.Violation) int) int {
+	st := simdisk.NewState()
+	var model *core.Model
+	for li, ps := range f.Path {
+		fmt.Printf("  level %d: ops %s, crash before log index %d %s, image %s (%s)\n", li+1, core.OpsString(ps.Ops), ps.K, ps.Variant, ps.Img, ps.ImgDesc)
+		img, m, err := core.ReplayCrashStep(st, f.Cfg, ps, model)
+		if err != nil {
+			fmt.Println("  cannot follow the recorded path:", err)
+			return 2
+		}
+		st, model = img, m
+	}
+	ops := append([]core.Op{{K: "R"}}, f.Ops...)
+	sr := core.RunSession(st, f.Cfg, ops, core.SessionOpts{ObserveEach: true, CmpProp: f.Prop, CloseAtEnd: true})
+	if sr.OpenObs != nil {
+		fmt.Println("  recovered:", sr.OpenObs.Sig())
+	}
+	if f.Legal != "" {
+		fmt.Println("  legal:    ", f.Legal)
+	}
+	vs := sr.Viol
+	if sr.OpenObs != nil && f.Obs != "" && sr.OpenObs.Sig() == f.Obs && len(vs) == 0 {
+		// same recovery as recorded: the recorded verdict stands
+		vs = append(vs, core.Violation{Prop: f.Prop, Msg: f.Msg})
+	}
+	return show(vs)
 }
